@@ -1,3 +1,33 @@
+/-
+Document transactions and PatchByJSON over the server log WITH the creating client and its creation snapshot operation
+(C09 + C19 end to end, Document datatype).  Namespace `Orda.TxNetC`.  Types: `DNet.Node`, `DNet.Net`; actions `DTx.Act`.
+
+THE SYSTEM (§1).  `DNetC.initC cuid n`: node 0 is the CREATOR `Replica.new .document (cuid 0) true` (buffer = [snapshot operation]),
+the others are fresh subscribers.  `StepC` = `DTx.Step` (`call`, `tx`, `patch`, `pushAll`, `pullAll`) + the guard on `call`, `tx`,
+`patch`: a subscriber (`i ≠ 0`) acts only after it has consumed the first log entry (`0 < nd.pulled`).  With `pushAll` the
+snapshot operation and later units travel in one push; `Replica.receive` treats the snapshot operation as a unit of ONE
+non-header operation (`IsUnit`), hands it to `execRemoteBase`, which leaves the (still empty) document of the subscriber empty.
+`ReachC`; `actC`/`runC`/`reachC_run`: the guarded executable form.
+
+RESULTS (§9–§11), no hypothesis beyond `ReachC` (and `CallOK`/`TgtOK`, and the guard where a subscriber's step is taken):
+  * `created_dtx_quiescent_converged`; `cdtx_same_operations_same_document`, `cdtx_nodes_applied`, `cdtx_docInv`, `cdtx_can_quiesce`;
+  * `created_dtx_failed_transaction_changes_nothing` (ANY node, no guard needed: it is the rollback invariant `RbInv`),
+    `cdtx_failed_tx_is_noop(_net)`, `cdtx_tx_never_panics`, `cdtx_committed_tx_is_one_unit`;
+  * `created_dtx_committed_transaction_all_or_nothing` (= `cdtx_all_or_nothing`; `_pos`, `cdtx_log_is_units`, `cdtx_log_nodup`,
+    `cdtx_receive_ok`): the snapshot operation is a unit of its own;
+  * `created_dtx_patch_reaches_target_anywhere` (ANY node, no guard needed), `cdtx_patch_is_one_unit`, `cdtx_patch_propagates`;
+  * `created_dtx_log_starts_with_snapshot`; `tx_before_first_pull_diverges` (§13): without the guard convergence is false.
+
+HOW.  Proofs/DocTxNet.lean §3–§10 carried over TEXT FOR TEXT (generated from it) with the header-free side's invariant
+`DTx.SInv`/`NInv` replaced by `DNetC.InvC`/`NodeInvC` of Proofs/DocNetCreate.lean (the same invariant with the snapshot entry
+allowed in the ghost sequences, + `fresh`, `creator`, `log_head`).  The abstraction `Abs` (erase the transaction headers) is
+unchanged: the snapshot operation is not a header, it stays on the header-free side, where `DNetC.InvC.pull` knows how to deliver
+it.  Edits: the guard is threaded through `body_sim`, `patch_body_sim`, `tx_cases`, `patch_cases`, `TInvC.call/tx/patch/unit`
+(on the header-free side it reads `0 < nd0.pulled`; `guard0` derives it from the real guard because the first log entry is the
+snapshot operation, not a header); `pull_oth_step` has the snapshot branch (`DNetC.execRemoteBase_snap`: no panic); `TInvC` has
+one more field `head : HeadOK` (real side: the log and the creator's buffer start with the snapshot operation, a subscriber that
+has pulled nothing has queued nothing), kept by `HeadOK.set` / `HeadOK.pushAll`; `tinv_initC`.
+-/
 import Orda.Proofs.DocTxNet
 import Orda.Proofs.DocNetCreate
 set_option linter.unusedSimpArgs false
@@ -476,7 +506,7 @@ theorem callOf_not_empty_insert {hd : Ts} {k : String} {op : PatchOp} {c0 : JVal
   cases c0 <;> cases op <;> simp [callOf] at h
   all_goals (try split at h) <;> simp at h
 
-/-- `DPatch.op_step`, also telling that the call is one the system admits -/
+/-- `DPatch.op_step`, also telling that the call is one the system accepts -/
 theorem op_step' {L : OpId} {d : Doc} (I : DP.DInv L 0 d) (hk : KeysND d) {op : PatchOp} {t' : JVal}
     (happ : applyAt op op.path d.view.canon = some t') (hgood : Carr GoodV op) :
     ∃ c b post d' bd ret' b', d.patchCall op = .ok (some c) ∧ CallOK c ∧ c.prepare (.doc d) = .op b post ∧
@@ -2400,12 +2430,13 @@ theorem quiescent_final : Quiescent finalNet := by
   unfold Quiescent
   decide +kernel
 
-/-- `created_dtx_quiescent_converged` instantiated -/
-example : ASim (docOf (finalNet.nodes[0]'(by rw [len_final]; decide)).r) (docOf (finalNet.nodes[1]'(by rw [len_final]; decide)).r) ∧
-    (docOf (finalNet.nodes[0]'(by rw [len_final]; decide)).r).view.canon =
-      (docOf (finalNet.nodes[1]'(by rw [len_final]; decide)).r).view.canon :=
-  created_dtx_quiescent_converged reach_final quiescent_final 0 1 (by rw [len_final]; decide) (by rw [len_final]; decide) _ _
-    rfl rfl
+/-- `created_dtx_quiescent_converged` instantiated: creator vs subscriber, subscriber vs subscriber -/
+example : ∀ di dj, (finalNet.nodes[0]'(by rw [len_final]; decide)).r.state = .doc di →
+    (finalNet.nodes[1]'(by rw [len_final]; decide)).r.state = .doc dj → ASim di dj ∧ di.view.canon = dj.view.canon :=
+  fun di dj h1 h2 => created_dtx_quiescent_converged reach_final quiescent_final 0 1 _ _ di dj h1 h2
+example : ∀ di dj, (finalNet.nodes[1]'(by rw [len_final]; decide)).r.state = .doc di →
+    (finalNet.nodes[2]'(by rw [len_final]; decide)).r.state = .doc dj → ASim di dj ∧ di.view.canon = dj.view.canon :=
+  fun di dj h1 h2 => created_dtx_quiescent_converged reach_final quiescent_final 1 2 _ _ di dj h1 h2
 
 /-- … and every node shows exactly the patch target -/
 theorem final_views : finalNet.nodes.map (fun nd => (docOf nd.r).view.canon == (JVal.obj tgt).canon) = [true, true, true] := by
